@@ -37,5 +37,20 @@ PLAN = {
         level_text="all call sequences up to depth 3 (thorough 4) from 7 start layouts over 63 calls (valid, unknown label, out-of-range orbital/spin, mismatched sites, zero amplitudes): accept/reject decision, unchanged-on-reject, every stored term valid, getSite for known/unknown labels, terms by order, copy independence",
         runs=[("san", "hx", "C20", 8, [])],
         rule="BFS over call histories, dedup by (site map, sorted term dump); non-trivial = history of >= 2 calls"),
+    "C05": dict(
+        engine="histx", technique="explicit-state BFS over the expression graph of the real Operator class (state key = its Fock matrix); Jordan-Wigner matrices as reference model",
+        level_text="expression graph over {*,+,-,scalar*,+scalar,[,],{,}} from c_i,c+_i on 2 and 3 modes to depth 2 (thorough 3), all monomials up to length 6/4 in every factor order, all (==, commutes) pairs against matrix equality, associativity on all depth<=1 triples, N and Sz shortcuts on every Fock state",
+        runs=[("san", "hx", "C05", 8, [])], thorough_extra=[("cplx", "hx", "C05", 8, [])],
+        rule="BFS over operator expressions, dedup by Fock matrix; plus flat enumeration of all operator sequences up to the length bound; non-trivial = monomial of length >= 3"),
+    "C18": dict(
+        engine="modelx", technique="exhaustive enumeration of small lattices (sites x orbital/spin counts x labels x ordering modes) on the real IndexClassification; BFS over models with every relabelling as a differential oracle",
+        level_text="all lattices with 1..3 sites, 1..3 orbitals and spins each, distinct labels from a 7(4)-label alphabet, both ordering modes: size, injectivity, both inverse relations, invalid triples unmapped; and for every model state on S1,S2,S4,S4r,S6 every label permutation / rename x both ordering modes must reproduce spectrum, averages and G_ij up to the induced index permutation",
+        runs=[("san", "hx", "C18", 16, [])],
+        rule="flat enumeration of lattices x modes, plus BFS over model histories x relabellings; non-trivial = heterogeneous sites (bookkeeping) / non-diagonal or degenerate H (relabelling)"),
+    "C07": dict(
+        engine="modelx", technique="explicit-state BFS over model histories x every analysis (default, ignored, all subsets of size <=2 of a candidate list of Fock-diagonal operators) on the real Symmetrizer/StatesClassification; partition predicates evaluated on dense reference operators",
+        level_text="every model state on shapes incl. spinless, heterogeneous and 3-spin sites x {default, ignored, custom subsets of 10 candidates incl. non-linear and non-dyadic ones}: analysis completes, every label in exactly one block and recovered from its address, reference H block-diagonal, every c, c+, c+c maps a block into one block and getBlockMapping lists exactly the non-zero block pairs",
+        runs=[("san", "hx", "C07", 16, [])], deadline_quick=900,
+        rule="BFS over generator histories x analyses; non-trivial = H non-diagonal or degenerate"),
 }
 NOT_APPLICABLE = {}
